@@ -84,6 +84,42 @@ CHECKS["C15"] = {
             "sums and subtotal offsets are read from the implementation (owned by C01/C04); sign of an infinity from a "
             "zero total is not compared (signed zero not modelled).",
     "design_ref": "DESIGN.md section 3 (C15)",
+    "C17": {
+        "text": "Theorems (Props/C17.v, closed under the global context) prove that for EVERY shape of the "
+                "response's filter statistics without a null dict the model's cascade equals the property's "
+                "decision list (new style selected/(selected+other), 1 for a categorical-date filter, else "
+                "filtered/unfiltered weighted N, 1 when unspecified, NaN on a zero denominator), each rule "
+                "also separately; that population counts are P*N*f cell by cell with P the row / column / "
+                "table proportion chosen by the categorical-date position (strand: 1 on categorical-date), "
+                "NaN on subtotal differences; MoE = 1.959964*(N f)*stderr and its square; linearity in N. "
+                "Refuted-by-witness theorems exhibit the null-dict AttributeError and the two strand "
+                "difference exceptions. The model is tied to the code by parsing the generated JSON into the "
+                "model's shape type and by feeding the implementation's own reported proportions and "
+                "standard errors (20 fixed shapes x cat-date positions x slice/strand + random cases), plus "
+                "a Python reading of the property text and a linearity oracle on the implementation.",
+        "note": "Trusted: Coq kernel + vm_compute; hand-written Model/Population.v tied by correspondence only "
+                "(sampled inputs, 1e-9 tolerance); the harness' JSON->fshape parser; proportions / std-errs "
+                "are taken from the implementation's public API (owned by C03/C11); the categorical-date "
+                "position comes from the generator. Three open findings (known_findings.d/C17-*.json). MoE at "
+                "difference subtotals is Z*N*f*stderr of the difference (not NaN) - read as covered by the MoE "
+                "clause. Booleans / strings as JSON numbers are not modelled (skipped and counted).",
+        "design_ref": "DESIGN.md section 3 (C17), 2.4, section 4 #12",
+    },
+}
+
+CHECKS["C03"] = {
+    "text": "Theorems (Props/C03.v, closed under the global context): every cell of every block of the row/column "
+            "proportions is count block / base block, except a subtotal difference on a categorical-date dimension "
+            "(difference of the two percentages, NaN for several terms) - pointwise for all sizes and insertion lists; "
+            "for 0 <= count <= base a proportion is never infinite, lies in [0,1] and is NaN iff the base is 0; "
+            "proportions of counts that add up to a non-zero base add up to 1; percentages are 100 x; strand twin. "
+            "Model tied to the code by running props_of/div_blocks on the implementation's own count and base blocks; "
+            "independent oracles on the implementation: range, NaN<=>zero base, sum to one over all base elements of a "
+            "categorical dimension, percentages, margin proportion = margin / table base.",
+    "note": "Trusted: Coq kernel + vm_compute; hand-written Model/Proportions.v tied by correspondence only; count/base "
+            "blocks and subtotal offsets are read from the implementation (owned by C01/C02/C04); 0<=count<=base is "
+            "observed, not derived from the survey here. Open known finding F15 (2-D margin-proportion fall-back with insertions).",
+    "design_ref": "DESIGN.md section 3 (C03)",
 }
 
 NOT_APPLICABLE = {}
